@@ -68,7 +68,7 @@ func FireID(id int) bool {
 func SetVirtual(p Policy) {
 	mu.Lock()
 	virtual, policy = true, p
-	pending, tickers = nil, nil
+	pending = nil // tickers created in virtual mode stay known: they tick only when Tick is called, in either mode
 	mu.Unlock()
 }
 
